@@ -53,7 +53,11 @@ fn decode_request(wire: &[u8]) -> Req {
 #[derive(Clone)] struct Writes { pieces: Vec<Vec<u8>>, chunked: bool }
 impl Body for Writes {
     fn kind(&mut self) -> IoResult<BodyKind> { Ok(if self.chunked { BodyKind::Chunked } else { BodyKind::KnownLength(self.pieces.iter().map(|p| p.len() as u64).sum()) }) }
-    fn write<W: Write>(&mut self, mut w: W) -> IoResult<()> { for p in &self.pieces { if p.is_empty() { let _ = w.write(p)?; /* write_all never calls write for an empty slice */ } else { w.write_all(p)?; } } Ok(()) }
+    fn write<W: Write>(&mut self, mut w: W) -> IoResult<()> { for p in &self.pieces { if p.is_empty() {
+            // an empty piece reaches the writer in every way a body may issue it: write (the provided write_all never calls write for
+            // an empty slice), write_all itself, an empty formatted field, and a flush in between
+            let _ = w.write(p)?; w.write_all(p)?; write!(w, "{}", "")?; w.flush()?;
+        } else { w.write_all(p)?; } } Ok(()) }
 }
 fn piece(n: usize, tag: u8) -> Vec<u8> { (0..n).map(|i| tag.wrapping_add((i % 251) as u8)).collect() }
 
